@@ -12,8 +12,7 @@ namespace SV.GenProofs
 open SV SV.TxCache
 
 theorem insertionStep_leaves :
-    Gen.insertionStep_leaves = ["incomingTx.Tx.GetNonce() : Int", "incomingTx.Tx.GetGasPrice() : Int",
-      "currentTx.Tx.GetNonce() : Int", "currentTx.Tx.GetGasPrice() : Int", "currentTx.TxHash : Bytes", "incomingTx.TxHash : Bytes"] := rfl
+    Gen.insertionStep_leaves = ["currentTx.Tx.GetGasPrice() : Int", "currentTx.Tx.GetNonce() : Int", "currentTx.TxHash : Bytes", "incomingTx.Tx.GetGasPrice() : Int", "incomingTx.Tx.GetNonce() : Int", "incomingTx.TxHash : Bytes"] := rfl
 
 /-- the ways one iteration ends other than going on: found the place (code 1), duplicate (code 2) -/
 theorem insertionStep_outcomes :
@@ -48,8 +47,8 @@ theorem cmpBytes_neg (a b : Bytes) : Gen.cmpBytes a b < 0 ↔ bytesLt a b = true
     exactly the decision the source takes there -/
 theorem insertRev_cons_eq_source (t c : Tx) (rest : List Tx) :
     insertRev t (c :: rest) =
-      (if Gen.insertionStep t.nonce t.gasPrice c.nonce c.gasPrice c.hash t.hash = 1 then some (t :: c :: rest)
-       else if Gen.insertionStep t.nonce t.gasPrice c.nonce c.gasPrice c.hash t.hash = 2 then none
+      (if Gen.insertionStep (incomingTx_Tx_GetNonce := t.nonce) (incomingTx_Tx_GetGasPrice := t.gasPrice) (currentTx_Tx_GetNonce := c.nonce) (currentTx_Tx_GetGasPrice := c.gasPrice) (currentTx_TxHash := c.hash) (incomingTx_TxHash := t.hash) = 1 then some (t :: c :: rest)
+       else if Gen.insertionStep (incomingTx_Tx_GetNonce := t.nonce) (incomingTx_Tx_GetGasPrice := t.gasPrice) (currentTx_Tx_GetNonce := c.nonce) (currentTx_Tx_GetGasPrice := c.gasPrice) (currentTx_TxHash := c.hash) (incomingTx_TxHash := t.hash) = 2 then none
        else (insertRev t rest).map (c :: ·)) := by
   have hz := cmpBytes_eq_zero c.hash t.hash
   have hn := cmpBytes_neg c.hash t.hash
@@ -79,14 +78,14 @@ theorem insertRev_cons_eq_source (t c : Tx) (rest : List Tx) :
     · simp [h2]
     · simp [h2]
 
-theorem removeLowerStops_leaves : Gen.removeLowerStops_leaves = ["txNonce : Int", "targetNonce : Int"] := rfl
-theorem removeHigherStops_leaves : Gen.removeHigherStops_leaves = ["txNonce : Int", "givenNonce : Int"] := rfl
+theorem removeLowerStops_leaves : Gen.removeLowerStops_leaves = ["targetNonce : Int", "txNonce : Int"] := rfl
+theorem removeHigherStops_leaves : Gen.removeHigherStops_leaves = ["givenNonce : Int", "txNonce : Int"] := rfl
 
 /-- `removeTransactionsWithLowerOrEqualNonceReturnHashes` stops at the first nonce strictly above the target — the model's
     `dropLowerOrEqual` keeps the list from exactly that element on -/
 theorem dropLowerOrEqual_cons_eq_source (n : Nat) (c : Tx) (rest : List Tx) :
     dropLowerOrEqual n (c :: rest) =
-      (if Gen.removeLowerStops c.nonce n = [true] then c :: rest else dropLowerOrEqual n rest) := by
+      (if Gen.removeLowerStops (txNonce := c.nonce) (targetNonce := n) = [true] then c :: rest else dropLowerOrEqual n rest) := by
   simp only [dropLowerOrEqual, Gen.removeLowerStops, gt_iff_lt, Int.ofNat_lt]
   by_cases h : n < c.nonce <;> simp [h]
 
@@ -94,7 +93,7 @@ theorem dropLowerOrEqual_cons_eq_source (n : Nat) (c : Tx) (rest : List Tx) :
     nonce strictly below the given one -/
 theorem dropHigherRev_cons_eq_source (n : Nat) (c : Tx) (rest : List Tx) :
     dropHigherRev n (c :: rest) =
-      (if Gen.removeHigherStops c.nonce n = [true] then c :: rest else dropHigherRev n rest) := by
+      (if Gen.removeHigherStops (txNonce := c.nonce) (givenNonce := n) = [true] then c :: rest else dropHigherRev n rest) := by
   simp only [dropHigherRev, Gen.removeHigherStops, Int.ofNat_lt]
   by_cases h : c.nonce < n <;> simp [h]
 
